@@ -236,8 +236,11 @@ def _multisig_constants():
     ops = re.findall(r"int_for_opcode\('([A-Z0-9_]+)'\)", src)
     if ops != ["OP_1", "OP_16", "OP_CHECKMULTISIG"]:
         raise GenError("_info_from_multisig_script: opcode names changed: %r" % ops)
-    if "if not OP_1 <= opcode < OP_16:" not in src:
+    if src.count("if not OP_1 <= opcode < OP_16:") != 1:
         raise GenError("_info_from_multisig_script: range test of m changed")
+    if src.count("if not OP_1 <= opcode <= OP_16:") != 1 or \
+            src.index("if not OP_1 <= opcode <= OP_16:") > src.index("n = opcode + (1 - OP_1)"):
+        raise GenError("_info_from_multisig_script: range test of n (OP_1..OP_16) missing or moved")
     m = re.search(r"if size < (\d+) or size > (\d+):", src)
     if not m:
         raise GenError("_info_from_multisig_script: key size test changed")
